@@ -1,2 +1,6 @@
 -- Property files of work group I2 (import UF.Props.Cxx lines go here).
-import UF.Driver.Ops.GroupI2
+import UF.Props.C04Full
+import UF.Props.C05Full
+import UF.Props.C12Full
+import UF.Props.C10Full
+import UF.Props.C18Full
